@@ -16,7 +16,29 @@ from . import ops
 QUICK_CONTROLS_PER_PROP = 4
 
 
+def seeded_mutants(prop: str) -> list:
+    """Independent sub-agents' changes kept under /verif/seeded/<id>/ (patch.diff + meta.json)."""
+    import glob
+    import json
+
+    here = os.path.dirname(os.path.dirname(os.path.abspath(__file__)))
+    out = []
+    for meta_path in sorted(glob.glob(os.path.join(here, "seeded", "*", "meta.json"))):
+        with open(meta_path) as fh:
+            meta = json.load(fh)
+        if meta.get("breaks_property") != prop:
+            continue
+        with open(os.path.join(os.path.dirname(meta_path), "patch.diff")) as fh:
+            diff = fh.read()
+        out.append({"id": "seed-" + meta["id"], "prop": prop, "file": "", "rules": [prop], "what": "seeded by an independent sub-agent", "diff": diff, "kind": "break", "control": False, "expect_detected": meta.get("expect_detected", True)})
+    return out
+
+
 def _apply(project_sources: dict, m: dict):
+    if "diff" in m:
+        from .udiff import apply_unified
+
+        return apply_unified(project_sources, m["diff"])
     rel = os.path.join(Project.PKG_DIR, m["file"])
     src = project_sources.get(rel)
     if src is None:
@@ -36,7 +58,8 @@ def _run_one(args):
     if ov is None:
         return (m["id"], "n/a", [], "")
     try:
-        compile(list(ov.values())[0], m["file"], "exec")
+        for _rel, _src in ov.items():
+            compile(_src, _rel, "exec")
     except SyntaxError as e:
         return (m["id"], "n/a", [], f"variant does not compile: {e}")
     verdict, rep = analyse_variant(prop, ov)
@@ -50,7 +73,7 @@ def _run_one(args):
 def run_for_check(prop: str, project: Project, tier: str):
     """Positive controls (quick: a few breaking mutants per property; thorough: all mutants + twins)."""
     sources = {m.relpath: m.src for m in project.modules.values()}
-    muts = [m for m in ops.MUTANTS if m["prop"] == prop]
+    muts = [m for m in ops.MUTANTS if m["prop"] == prop] + (seeded_mutants(prop) if tier == "thorough" else [])
     breaking = [m for m in muts if m["kind"] == "break"]
     twins = [m for m in muts if m["kind"] == "twin"]
     if tier != "thorough":
@@ -78,7 +101,10 @@ def run_for_check(prop: str, project: Project, tier: str):
     table = []
     for m in breaking:
         _, verdict, rules, detail = results[m["id"]]
-        fired = verdict == "violation" and any(r in rules for r in m["rules"])
+        fired = verdict == "violation" and any(r in rules or r2.startswith(r + ".") for r in m["rules"] for r2 in rules)
+        if not m.get("expect_detected", True):
+            table.append({"id": m["id"], "kind": "break", "expect": "documented miss", "verdict": verdict, "rules_fired": rules, "ok": True, "what": m["what"]})
+            continue
         table.append({"id": m["id"], "kind": "break", "expect": m["rules"], "verdict": verdict, "rules_fired": rules, "ok": fired or verdict == "n/a", "what": m["what"]})
         if verdict == "n/a":
             continue  # operator does not apply to this (edited) tree: informational
